@@ -61,6 +61,10 @@ def body_single(S, spec):
             S.equal(f"x.dag[{d}]", sr.tensordot(x, xd, axes=(fwd, rev)), n2)
             if nd:
                 S.equal(f"conj.x-int[{d}]", sr.tensordot(xc, x, nd), n2)
+            if nd == 1:
+                # the matrix-product operator is the same contraction
+                S.equal(f"conj@x[{d}]", xc @ x, n2)
+                S.equal(f"x@conj[{d}]", x @ xc, n2)
         else:
             # the documented weaker law: the two operand orders agree
             S.equal(f"order[{d}]", sr.tensordot(xc, x, axes=(fwd, fwd)), sr.tensordot(x, xc, axes=(fwd, fwd)))
